@@ -814,6 +814,22 @@ def _match_angle(y0, x0, timeout=3000):
     return None
 
 
+def _sign_known(e):
+    """+1 / -1 if the constraint set decides the sign of e, else None"""
+    for sg, neg in ((1, e <= 0), (-1, e >= 0)):
+        sv = z3.Solver()
+        sv.set('timeout', 3000)
+        sv.add(C.dom)
+        sv.add(C.cons)
+        ex = paths.CUR
+        if ex is not None and getattr(ex, 'active', False):
+            sv.add(list(ex.pc))
+        sv.add(neg)
+        if sv.check() == z3.unsat:
+            return sg
+    return None
+
+
 def atan2(y, x, match=True):
     y = J(y)
     x = J(x)
@@ -822,8 +838,11 @@ def atan2(y, x, match=True):
     if key in C.memo:
         ang0 = C.memo[key][0]
     else:
-        if is0(z3.simplify(y0)) and is_val(z3.simplify(x0)) and val(z3.simplify(x0)) > 0:
-            ang0 = ZERO
+        if is0(z3.simplify(y0)) and is_val(z3.simplify(x0)) and val(z3.simplify(x0)) >= 0:
+            ang0 = ZERO                 # atan2(0, x > 0) = 0; numpy: atan2(0, 0) = 0 as well
+        elif is0(z3.simplify(y0)) and _sign_known(x0) is not None:
+            # atan2(+0, x < 0) = pi (a negative zero would give -pi: the same direction)
+            ang0 = ZERO if _sign_known(x0) > 0 else z3.simplify(180 * DEG)
         else:
             ang0 = _match_angle(y0, x0) if match else None
             if ang0 is None:
